@@ -268,4 +268,11 @@ Definition C18_lookup_stmt : Prop :=
   forall hash1 hash2 : I -> N, keq_ok keq hash1 -> keq_ok keq hash2 ->
     forall (m : list (I * P)) k, get_index_of keq hash1 m k = get_index_of keq hash2 m k.
 
+(** hence the whole observable behaviour: same trace, whatever the two
+    (contract-abiding) hash functions are *)
+Definition C18_run_stmt : Prop :=
+  forall hash1 hash2 : I -> N, keq_ok keq hash1 -> keq_ok keq hash2 ->
+    forall (m : @machine I P) (h : list (@op I P)),
+      run keq hash1 ple peq alloc_limit m h = run keq hash2 ple peq alloc_limit m h.
+
 End PropSpec.
